@@ -64,6 +64,10 @@ def cases(ctx):
     for k in KEYS7 + ["1XX", "3XX", "302", "299", "204"]:
         for lay in LAYOUTS:
             out.append({"op": "server.op", "in": {"ops": [{"opid": "one", "method": "get", "path": "/x", "params": [], "body": None, "responses": [[k, LAYOUTS[lay]]]}]}})
+    # every named exact code: one row of the token -> http::StatusCode table each
+    from checks.c04 import named_codes
+    for code in named_codes():
+        out.append({"op": "server.op", "in": {"ops": [{"opid": "one", "method": "get", "path": "/x", "params": [], "body": None, "responses": [[code, LAYOUTS["json"]], ["default", LAYOUTS["none"]]]}]}})
     for _ in range(250 if ctx.quick else 2500):
         out.append(rand_case(r, overlap=r.random() < 0.1))
     return out
@@ -87,5 +91,5 @@ def run(ctx):
     return ctx.finish(
         checker_cmd="lake build Oas3Model.Props.C05 && #print axioms on every theorem" + ("" if ctx.quick else " && leanchecker"),
         trusted_base=vlib.TRUSTED_BASE + ["axum/matchit routing semantics (segment-wise match, conflicting patterns rejected) as stated in Model/Server.lean", "axum extractors and Json encoding are not modelled beyond which one is emitted", "syn extraction of router/handlers/IntoResponse"],
-        rule="server-mod generation of specs with 1-5 operations over 9 path templates (several operations per path, overlapping templates, mixed segments), all 8 methods, path/query/header params at both levels, bodies, and response sets over exact/range/default keys x 5 media layouts; router table, handler signatures and IntoResponse tables parsed with syn, compared with the model and judged; non-trivial = >=1 operation; distinct by input hash",
+        rule="server-mod generation of specs with 1-5 operations over 9 path templates (several operations per path, overlapping templates, mixed segments), all 8 methods, path/query/header params at both levels, bodies, and response sets over exact/range/default keys x 5 media layouts, every named exact code once; router table, handler signatures and IntoResponse tables parsed with syn, compared with the model and judged; non-trivial = >=1 operation; distinct by input hash",
         assumptions=["trait-method doc lines (`* Path: `METHOD template``) identify the operation a handler belongs to"])
